@@ -196,7 +196,8 @@ def process_object(data, dic):
 
         obj = klass.from_json_safe(data, dic)
         # a nested object may have taken the same ID while this one was being built
-        if id_ in dic:
+        # (an object that registered itself in from_json is fine)
+        if id_ in dic and dic[id_] is not obj:
             raise JSONParseError(f"Object with ID `{id_}' already exists")
         dic[id_] = obj
     else:
